@@ -488,7 +488,7 @@ func (p *program) getFilename(f *ast.File) string {
 func (p *program) shortenLocation(loc string) string {
 	// If possible, construct relative path.
 	relLoc := loc
-	if p.workDir != "" {
+	if p.workDir != "" && strings.HasPrefix(loc, p.workDir) {
 		relLoc = strings.Replace(loc, p.workDir, "./", 1)
 	}
 
